@@ -17,9 +17,11 @@ def cli():
 
 def _ast_to_dict(doc):
     """Convert AST Document to dictionary for JSON/YAML export."""
-    from octave_mcp.core.ast_nodes import Assignment, Block, InlineMap, ListValue
+    from octave_mcp.core.ast_nodes import Assignment, Block, HolographicValue, InlineMap, ListValue
 
     def convert_value(value):
+        if isinstance(value, HolographicValue):
+            return value.raw_pattern
         if isinstance(value, ListValue):
             return [convert_value(item) for item in value.items]
         elif isinstance(value, InlineMap):
